@@ -292,8 +292,7 @@ pub fn cap_insert_index<'a>(_w: &mut LogWriter<'a>, table: TableId, index: u64, 
 		CAP_TABLE = table.as_u16();
 		CAP_INDEX = index;
 		CAP_SUB = sub;
-		let mut k = 0;
-		while k < 512 { CAP_CHUNK.0[k] = data.0[k]; k += 1; }
+		CAP_CHUNK = data; // whole-array assignment (no byte loop)
 	}
 }
 
@@ -423,11 +422,11 @@ macro_rules! c09_page {
 	};
 }
 
+/// The slot is used only as an index into the 512-byte page (no loop bound depends on it): it stays symbolic.
 fn any_slot_then(f: fn(u8, usize), bits: u8) {
 	let i: usize = kani::any();
 	kani::assume(i < 64);
-	let mut c = 0;
-	while c < 64 { if c == i { f(bits, c); } c += 1; }
+	f(bits, i);
 }
 
 c09_page!(c09_p1_insert_new_b16, check_insert_new(16));
